@@ -216,3 +216,20 @@ Proof.
   intros Hp Hc Hl. unfold apply, output_time_rule. rewrite Hp, Hc. cbv zeta. rewrite Z.gtb_ltb.
   destruct (ot <? thd (last (s i))); [reflexivity|]. unfold world_time. rewrite Hl. reflexivity.
 Qed.
+
+(* ---- sim_process: the two tests made when a step is popped ---- *)
+Theorem tie_loop_guard st t : loop_guard (maxloop st) t = loop_exceeded st t.
+Proof. unfold loop_guard, loop_exceeded. induction (tl t) as [|x l IH]; simpl; [reflexivity|]. rewrite IH, Z.geb_leb. reflexivity. Qed.
+
+Theorem tie_begin_checks st s i t m : begin_enabled st s i = true -> tmin (nexts (s i)) = Some t ->
+  apply st s (EvBegin i t m) =
+  (let x := s i in
+   if past_check t (prog x) then Err (EPast i) else
+   if loop_guard (maxloop st) t then Err (ELoopExpected i) else
+   let s' := upd s i (mkSim InStep (prog x) (removeT t (nexts x)) (Some t) (last x) (newer x)) in
+   if max_advance st s' i =? m then Ok s' else Err (EMaxAdv i)).
+Proof.
+  intros He Ht. unfold apply. rewrite He, Ht. cbv zeta. simpl negb at 1.
+  assert (Er : teq t t = true) by (apply teq_eq; reflexivity). rewrite Er. simpl negb at 1. cbv iota.
+  unfold past_check. rewrite tie_loop_guard. reflexivity.
+Qed.
